@@ -13,7 +13,9 @@ import (
 
 //verif:guard control.region curr RWMutex
 //verif:guard control.region gates RWMutex
-//verif:guard control.region timeRange RWMutex
+// region.timeRange is deliberately not in the guard table: it is written only inside Controller.OpenGate (under
+// Controller.mu held for writing, plus the region lock) and read under Controller.mu, i.e. it is guarded by the
+// controller's lock, which lives in another object than the guard directive can name.
 //verif:guard control.region counter RWMutex
 //verif:guard control.Controller regions mu
 
@@ -268,4 +270,76 @@ func VerifC05Authorize() {
 		verifAssert("authorize-exactly-one", cnt == 1)
 	}
 	verifReach("end")
+}
+
+// VerifC05OpenGate: the controller routes a new gate to the unique region its time range overlaps, refuses a
+// range that overlaps two regions, and otherwise creates a new region at its sorted position (calling
+// OpenResource exactly then); regions stay sorted by start and pairwise non-overlapping.
+func VerifC05OpenGate() {
+	nr := verifLen("regions", 0, verifParam("regions", 2))
+	c := &Controller[verifRes]{Config: Config{Concurrency: verifConc()}}
+	var prevEnd telem.TimeStamp = -1
+	for i := 0; i < nr; i++ {
+		tr := telem.TimeRange{Start: telem.TimeStamp(verifInt64("r.start")), End: telem.TimeStamp(verifInt64("r.end"))}
+		verifAssume(tr.Start >= 0 && tr.Start > prevEnd && tr.Start < tr.End)
+		prevEnd = tr.End
+		r := &vRegion{resource: verifRes{k: channel.Key(i + 1)}, gates: make(set.Set[*vGate]), controller: c, timeRange: tr}
+		g := &vGate{region: r, subject: control.Subject{Key: "existing"}, authority: control.Authority(verifUint8("auth")), position: 0}
+		r.gates.Add(g)
+		r.curr = g
+		r.counter = 1
+		c.regions = append(c.regions, r)
+	}
+	before := make([]*vRegion, len(c.regions))
+	copy(before, c.regions)
+	tr := telem.TimeRange{Start: telem.TimeStamp(verifInt64("g.start")), End: telem.TimeStamp(verifInt64("g.end"))}
+	verifAssume(tr.Start >= 0 && tr.Start < tr.End)
+	opened := 0
+	no := false
+	cfg := GateConfig[verifRes]{
+		OpenResource:          func() (verifRes, error) { opened++; return verifRes{k: 99}, nil },
+		ErrIfControlled:       &no,
+		ErrOnUnauthorizedOpen: &no,
+		Subject:               control.Subject{Key: "new"},
+		TimeRange:             tr,
+		Authority:             control.Authority(verifUint8("newauth")),
+	}
+	var overlapping []int
+	for i, r := range before {
+		if refOverlapCtl(r.timeRange, tr) {
+			overlapping = append(overlapping, i)
+		}
+	}
+	g, _, err := c.OpenGate(cfg)
+	verifObserveBool("err", err != nil)
+	switch len(overlapping) {
+	case 0:
+		verifAssert("opengate-new-region-ok", err == nil && g != nil && opened == 1 && len(c.regions) == nr+1)
+		if err == nil && g != nil {
+			verifAssert("opengate-new-region-holds-gate", g.region.curr == g && g.region.timeRange == tr && g.region.resource.k == 99)
+		}
+	case 1:
+		verifAssert("opengate-joins-existing", err == nil && g != nil && opened == 0 && len(c.regions) == nr)
+		if err == nil && g != nil {
+			verifAssert("opengate-joined-the-overlapping-region", g.region == before[overlapping[0]] && g.region.gates.Contains(g))
+		}
+	default:
+		verifAssert("opengate-two-regions-refused", err != nil && opened == 0)
+	}
+	for i := 1; i < len(c.regions); i++ {
+		verifAssert("regions-sorted-by-start", c.regions[i-1].timeRange.Start <= c.regions[i].timeRange.Start)
+	}
+	if len(overlapping) <= 1 {
+		for i := 1; i < len(c.regions); i++ {
+			verifAssert("regions-stay-disjoint-when-not-merging", len(overlapping) == 1 || !refOverlapCtl(c.regions[i-1].timeRange, c.regions[i].timeRange))
+		}
+	}
+	verifReach("end")
+}
+
+func refOverlapCtl(a, b telem.TimeRange) bool {
+	if a == b || a.Start == b.Start {
+		return true
+	}
+	return a.Start < b.End && b.Start < a.End
 }
